@@ -1,26 +1,205 @@
-//! C19: not implemented yet.
+//! C19: formatting preserves the token sequence and the comments.
+//!
+//! Oracle, for every text x that sway-parse accepts and swayfmt formats to y under config c:
+//!  (1) y parses (sway-parse, no error emitted);
+//!  (2) the token sequence of y equals that of x. Both are taken from the lexer's token tree
+//!      (comments excluded, doc comments `///` included as tokens), identifiers by source text,
+//!      literals by VALUE (kind, parsed value, integer suffix), punctuation by character
+//!      (whether two punctuation characters touch is whitespace and is not compared), after
+//!      exactly these normalisations, applied to both sides:
+//!        a. a `,` directly before a closing `)`, `]`, `}` is dropped  (swayfmt adds a trailing
+//!           comma to lists it breaks over several lines and removes it on one line:
+//!           swayfmt/src/utils/language/punctuated.rs, items/item_use/mod.rs);
+//!        b. inside a `use` statement, the braces of a group with one element are dropped
+//!           (`use a::{b};` -> `use a::b;`, item_use/mod.rs "check for only one import");
+//!        c. inside a `use` statement, the elements of a `{..}` group are compared as a multiset
+//!           (item_use/mod.rs sorts group imports);
+//!        d. a `,` directly before the `{` or `;` that ends a `where` clause is dropped
+//!           (utils/language/where_clause.rs always writes every bound with a trailing comma);
+//!        e. parentheses around a single type in a type position (after `->`, after `:` in a
+//!           struct / enum declaration body, first argument after `::<`) are dropped: the parser
+//!           itself returns the inner type for `(T)` (sway-parse/src/ty/mod.rs), the AST has no
+//!           node for them, so swayfmt cannot and does not print them;
+//!      anything else that differs is a violation;
+//!  (3) the comments of y (`//` and `/* */`, in source order, trailing blanks of each line and
+//!      CR/LF ignored) are exactly the comments of x, in the same order.
+//!
+//! Explored set and signatures: see c18.rs / c18_fmt.rs (same fixed enumeration).
+use crate::c18::fmt::*;
+use crate::c18::{replay_with, shard_with, signature};
 use crate::common::*;
 use crate::{Plan, Prop};
+use serde_json::json;
 
 pub static META: PropertyMeta = PropertyMeta {
     id: "C19",
     level: "exploration",
-    rule: "not implemented",
-    assumptions: &[],
-    floor_evaluations: 1,
-    floor_nontrivial: 2,
-    required_counters: &[],
+    rule: "fixed enumeration: every .sw file under /repo x (12 formatter configs with the file as is + 9 text variants [CRLF, re-flows, blank lines, tabs, inserted line / trailing / block comments at calibrated token boundaries] with the default config); quick = every file with the default config plus 6 seed-chosen other sub-cases per file, thorough = all; an evaluation = a parseable case that was formatted and whose output was parsed, token-compared and comment-compared; non-trivial = formatted successfully and the input has >= 20 tokens; distinct = hash of (path, config, variant)",
+    assumptions: &[
+        "sway-parse's lexer is trusted to delimit tokens, literals' values and comments of both the input and the output",
+        "whether two punctuation characters are adjacent (`& &` vs `&&`, `> >` vs `>>`) is treated as whitespace; a regrouping that still parses is not observed",
+        "literals are compared by value, not by spelling (counter literal_spelling_changed shows how often the spelling changed)",
+    ],
+    floor_evaluations: 1500,
+    floor_nontrivial: 1000,
+    required_counters: &["formatted_ok", "output_parses", "token_streams_equal", "comment_lists_equal", "comments_compared", "cases_with_comments", "rejected_input_unparsable", "configs_nondefault_cases", "variant_cases", "norm_trailing_commas", "norm_single_import_braces"],
 };
 
 pub static PROP: Prop = Prop {
     meta: &META,
-    plan: |_t| Plan { nshards: 1, budget_s: 1.0, mem_gib: 0 },
-    shard: |_ctx| {
-        let mut r = ShardResult::default();
-        r.harness_fault = Some("not implemented".into());
-        r
-    },
-    replay: crate::no_replay,
-    extra: crate::no_extra,
+    plan: |t| Plan { nshards: t.pick(12, 16), budget_s: t.pick(75.0, 1200.0), mem_gib: 6 },
+    shard: |ctx| shard_with(ctx, 6, check),
+    replay: |case| replay_with(case, check),
+    extra: crate::c18::extra,
     subcommand: crate::no_subcommand,
 };
+
+fn strip_digits(s: &str) -> String {
+    s.chars().filter(|c| !c.is_ascii_digit()).collect()
+}
+
+pub fn check(case: &CaseId, x: &str, ntokens: usize, res: &mut ShardResult) {
+    let Some(cfg) = config_by_name(case.config) else {
+        res.inconclusive(format!("unknown config {}", case.config));
+        return;
+    };
+    res.count("cases");
+    if case.config != CONFIGS[0] {
+        res.count("configs_nondefault_cases");
+    }
+    if case.variant != VARIANTS[0] {
+        res.count("variant_cases");
+    }
+    let replay = || json!({"file": case.file, "config": case.config, "variant": case.variant, "input": x});
+    let lx = match lex(x) {
+        Ok(l) => l,
+        Err(e) => {
+            if e.starts_with("harness:") {
+                res.inconclusive(format!("{}: {e}", case.key()));
+            }
+            res.count("rejected_input_unparsable");
+            return;
+        }
+    };
+    if parses(x).is_err() {
+        res.count("rejected_input_unparsable");
+        return;
+    }
+    let y = match run_fmt(x, &cfg) {
+        FmtOut::Ok(s) => s,
+        FmtOut::ParseRejected(_) => {
+            res.count("rejected_by_formatter_parser_only");
+            return;
+        }
+        FmtOut::OtherError(e) => {
+            res.count("formatter_error_on_parseable_input");
+            res.count(&format!("formatter_error[{}]", short(&e, 40)));
+            return;
+        }
+        FmtOut::Panic(loc, msg) => {
+            res.count("formatter_panic");
+            res.inconclusive(format!("{}: formatter panicked at {loc}: {}", case.key(), short(&msg, 100)));
+            return;
+        }
+    };
+    res.count("formatted_ok");
+    res.count(&format!("ok_config[{}]", case.config));
+    res.count(&format!("ok_variant[{}]", case.variant));
+    res.evaluations += 1;
+    if ntokens >= 20 {
+        res.note_nontrivial(hash64(case.key().as_bytes()));
+    }
+    let ctx = format!("{} [config {}, variant {}]", case.file, case.config, case.variant);
+
+    // (1) the output parses
+    match parses(&y) {
+        Ok(()) => res.count("output_parses"),
+        Err(e) => {
+            res.count("output_unparsable");
+            res.violation(signature(case, "output-unparsable", &strip_digits(&short(&e, 60))), format!("swayfmt output for {ctx} does not parse: {}", short(&e, 160)), replay());
+        }
+    }
+    let ly = match lex(&y) {
+        Ok(l) => l,
+        Err(e) => {
+            res.count("output_not_lexable");
+            res.violation(signature(case, "output-not-lexable", &strip_digits(&short(&e, 60))), format!("swayfmt output for {ctx} does not lex: {}", short(&e, 160)), replay());
+            return;
+        }
+    };
+
+    // (2) token sequences
+    let mut st_in = NormStats::default();
+    let mut st_out = NormStats::default();
+    let mut a = vec![];
+    let mut b = vec![];
+    flatten(&normalise(lx.tree.clone(), &mut st_in), &mut a);
+    flatten(&normalise(ly.tree.clone(), &mut st_out), &mut b);
+    res.count("token_streams_compared");
+    res.add("tokens_compared", a.len() as u64);
+    res.max("max_tokens_in_one_file", a.len() as u64);
+    res.add("norm_trailing_commas", st_in.trailing_commas + st_out.trailing_commas);
+    res.add("norm_single_import_braces", st_in.single_import_braces);
+    res.add("norm_single_import_braces_left_in_output", st_out.single_import_braces);
+    res.add("norm_use_groups_sorted", st_in.use_groups_sorted);
+    res.add("norm_where_commas", st_in.where_commas + st_out.where_commas);
+    res.add("norm_type_parens", st_in.type_parens);
+    res.add("norm_type_parens_left_in_output", st_out.type_parens);
+    if lx.literal_texts != ly.literal_texts {
+        res.count("literal_spelling_changed");
+    }
+    if a == b {
+        res.count("token_streams_equal");
+    } else {
+        res.count("token_streams_differ");
+        let i = a.iter().zip(b.iter()).position(|(p, q)| p != q).unwrap_or(a.len().min(b.len()));
+        let at = |v: &Vec<String>, k: usize| v.get(k).cloned().unwrap_or_else(|| "<end>".to_string());
+        let ctx_toks = |v: &Vec<String>| v[i.saturating_sub(4)..(i + 4).min(v.len())].join(" ");
+        res.violation(
+            signature(case, "tokens-differ", &format!("{}\n{}", at(&a, i), at(&b, i))),
+            format!("swayfmt changes the token sequence of {ctx}: token #{i} is `{}` in the input but `{}` in the output (input `.. {} ..`, output `.. {} ..`; {} vs {} tokens)", short(&at(&a, i), 40), short(&at(&b, i), 40), short(&ctx_toks(&a), 120), short(&ctx_toks(&b), 120), a.len(), b.len()),
+            replay(),
+        );
+    }
+
+    // (3) comments
+    let ca: Vec<String> = lx.comments.iter().map(|c| norm_comment(c)).collect();
+    let cb: Vec<String> = ly.comments.iter().map(|c| norm_comment(c)).collect();
+    res.count("comment_lists_compared");
+    res.add("comments_compared", ca.len() as u64);
+    res.max("max_comments_in_one_file", ca.len() as u64);
+    if !ca.is_empty() {
+        res.count("cases_with_comments");
+    }
+    if lx.comments.iter().any(|c| c.starts_with("/*")) {
+        res.count("cases_with_block_comments");
+    }
+    if ca == cb {
+        res.count("comment_lists_equal");
+        if res.samples.is_empty() && ntokens >= 20 && !ca.is_empty() && !case.file.starts_with("builtin:") {
+            res.sample(json!({"case": case.json(), "tokens": a.len(), "comments": ca.len(), "first_comment": short(&ca[0], 60), "output_parses": true, "trailing_commas_normalised": st_in.trailing_commas + st_out.trailing_commas}));
+        }
+    } else {
+        res.count("comment_lists_differ");
+        let mut sa = ca.clone();
+        let mut sb = cb.clone();
+        sa.sort();
+        sb.sort();
+        let kind = if sa == sb {
+            "comments-reordered"
+        } else if cb.len() < ca.len() {
+            "comments-lost"
+        } else if cb.len() > ca.len() {
+            "comments-duplicated"
+        } else {
+            "comments-changed"
+        };
+        let i = ca.iter().zip(cb.iter()).position(|(p, q)| p != q).unwrap_or(ca.len().min(cb.len()));
+        let at = |v: &Vec<String>, k: usize| v.get(k).cloned().unwrap_or_else(|| "<no more comments>".to_string());
+        res.violation(
+            signature(case, kind, &format!("{}\n{}", at(&ca, i), at(&cb, i))),
+            format!("swayfmt does not keep the comments of {ctx} ({kind}; {} in the input, {} in the output): comment #{i} is `{}` in the input but `{}` in the output", ca.len(), cb.len(), short(&at(&ca, i), 70), short(&at(&cb, i), 70)),
+            replay(),
+        );
+    }
+}
